@@ -30,10 +30,18 @@ type vChanConn struct {
 	// noDeadline: reads block until data arrives (read deadlines ignored). Used
 	// where cancellation polling is irrelevant and would only multiply timer events.
 	noDeadline bool
+	// lazy: a blocked Read returns a timeout error only when the harness calls
+	// poll(): a read-deadline expiry that finds the context still alive is a
+	// no-op in util.ConnWithContext (goto AGAIN), so only the polls that follow
+	// an event are kept.
+	lazy bool
+	kick chan struct{}
+	// onWrite: observer of written packets (model broker)
+	onWrite func(b []byte, at int64)
 }
 
 func vNewChanConn(stream bool) *vChanConn {
-	return &vChanConn{in: make(chan []byte, 16), stream: stream}
+	return &vChanConn{in: make(chan []byte, 16), stream: stream, kick: make(chan struct{}, 1)}
 }
 
 func (c *vChanConn) Read(p []byte) (int, error) {
@@ -44,6 +52,22 @@ func (c *vChanConn) Read(p []byte) (int, error) {
 	}
 	if c.eof {
 		return 0, io.EOF
+	}
+	if c.lazy {
+		select {
+		case b, ok := <-c.in:
+			if !ok {
+				c.eof = true
+				return 0, io.EOF
+			}
+			n := copy(p, b)
+			if c.stream {
+				c.pending = b[n:]
+			}
+			return n, nil
+		case <-c.kick:
+			return 0, vTimeoutErr{}
+		}
 	}
 	if c.noDeadline {
 		b, ok := <-c.in
@@ -84,6 +108,9 @@ func (c *vChanConn) Write(p []byte) (int, error) {
 	copy(b, p)
 	c.out = append(c.out, b)
 	c.outAt = append(c.outAt, vNow())
+	if c.onWrite != nil {
+		c.onWrite(b, vNow())
+	}
 	return len(p), nil
 }
 func (c *vChanConn) Close() error                       { c.closed++; return nil }
@@ -170,4 +197,15 @@ func (s *vSession) lastMqAt(def int64) int64 {
 		return s.mq.outAt[n-1]
 	}
 	return def
+}
+
+// poll: every blocked read of a lazy connection sees its read deadline expire once.
+func (s *vSession) poll() {
+	for _, c := range []*vChanConn{s.sn, s.mq} {
+		select {
+		case c.kick <- struct{}{}:
+		default:
+		}
+	}
+	vRunUntilIdle()
 }
